@@ -228,7 +228,7 @@ def sym_rollup(ctx, cfg):
     conf = _Cfg()
     conf.level, conf.src_dir, conf.dest_dir, conf.file_root = base_level, vfs.VPath("/vfs/src"), vfs.VPath(dst), "rollup"
     conf.qvalue_algorithm, conf.peps_algorithm = "tdc", "qvality"
-    pr = conflib.PepRecorder()
+    pr = conflib.PepRecorder(exit_without_decoys=False)  # the rollup tool does not claim to survive a level without decoys
     R.peps_from_scores = pr
     real_tdc = Q.__dict__["tdc"]
     Q.__dict__["tdc"] = tdc_by_spec(ctx)
@@ -533,7 +533,7 @@ def real_rollup(cfg, inp):
         conf.level, conf.src_dir, conf.dest_dir, conf.file_root = base_level, src, dst, "rollup"
         conf.qvalue_algorithm, conf.peps_algorithm = "tdc", "qvality"
         old = R.peps_from_scores
-        R.peps_from_scores = __import__("checks.conflib", fromlist=["x"]).real_pep_stub
+        R.peps_from_scores = lambda s, t, a="qvality": np.full(len(s), 0.5)
         try:
             R.do_rollup(conf)
         except Exception as ex:
